@@ -227,7 +227,9 @@ def do_replay(run, spec, path, known_classes):
             bad = True
             print("property fails on this input: " + why)
     corr = getattr(fam, "corr", None)
-    if (not corr(case, impl, mpart)) if corr else (impl != mpart):
+    if mpart is None and not corr:
+        pass                                  # oracle-only family: nothing to compare
+    elif (not corr(case, impl, mpart)) if corr else (impl != mpart):
         bad = True
         print("model and implementation disagree on this input")
     if bad:
